@@ -28,5 +28,6 @@ SolutionsAreTheCommonSupport ==
             IN Cardinality(sol) = Cardinality(se \cap sf)
 \* R3 for the algorithm: the transcription of Axis.unify (AxisAlg!AuUnify) satisfies the normative clause on every pair
 ModelUnifierIsMostGeneral == UnifyClause(AuAsCase(c.es, c.fs)) = "ok"
+ModelGeneralisationInstantiates == AntiunifyClause(AnAsCase(c.es, c.fs)) = "ok"
 Dump == PrintT(ToJson(c))
 =============================================================================
